@@ -121,7 +121,13 @@ func (fc *FnCtx) wf(t types.Type, term string, depth int) string {
 		return "true"
 	case "Iface":
 		// the nil interface has one representation
-		return "(and (>= (i_tag " + term + ") 0) (=> (= (i_tag " + term + ") 0) (= (i_pl " + term + ") 0)))"
+		base := "(and (>= (i_tag " + term + ") 0) (=> (= (i_tag " + term + ") 0) (= (i_pl " + term + ") 0)))"
+		if impl := fc.closedImpl(t); impl != nil {
+			// closed world (census-checked): a non-nil value of this interface has the declared dynamic type
+			fc.trusted["closed-world: "+ifaceKey(t)+" is implemented only by "+impl.String()] = true
+			return and(base, "(or (= (i_tag "+term+") 0) (= (i_tag "+term+") "+fc.B.Tag(impl)+"))")
+		}
+		return base
 	}
 	switch u := t.Underlying().(type) {
 	case *types.Basic:
